@@ -47,6 +47,9 @@ def run_plot(toks, state):
     from . import real
     a = json.loads(real.unhex6(toks[2]))
     entry = toks[1]
+    if a.get("labels") and a.get("labels_as"):
+        import numpy as np
+        a["labels"] = {"tuple": tuple, "ndarray": np.array}[a["labels_as"]](a["labels"])
     if a.get("as_array"):
         import numpy as np
         a["xs"] = np.array(a["xs"], dtype=float)
@@ -96,13 +99,13 @@ def run_plot(toks, state):
                 ret = plots.save_single_phasePlot(a["x"], a["y"], fname, saveFormat=a["fmt"], **kw); saved = fname
             elif entry == "pl_show_multi_phase":
                 kw2 = dict(kw); kw2.pop("label", None)
-                ret = plots.show_multiple_phasePlot(a["xs"], a["ys"], a["labels"], getFig=True, **kw2) if a["labels"] else plots.show_multiple_phasePlot(a["xs"], a["ys"], getFig=True, **kw2)
+                ret = plots.show_multiple_phasePlot(a["xs"], a["ys"], a["labels"], getFig=True, **kw2) if len(a["labels"]) else plots.show_multiple_phasePlot(a["xs"], a["ys"], getFig=True, **kw2)
             elif entry == "pl_save_multi_phase":
                 kw2 = dict(kw); kw2.pop("label", None)
                 ret = plots.save_multiple_phasePlot(a["xs"], a["ys"], fname, a["labels"], saveFormat=a["fmt"], **kw2); saved = fname
             elif entry == "pl_show_multi_phase2":
                 kw2 = dict(kw); kw2.pop("label", None)
-                ret = plots.show_multiple_phasePlot2([SP(s) for s in a["seqs"]], a["labels"], getFig=True, **kw2) if a["labels"] else plots.show_multiple_phasePlot2([SP(s) for s in a["seqs"]], getFig=True, **kw2)
+                ret = plots.show_multiple_phasePlot2([SP(s) for s in a["seqs"]], a["labels"], getFig=True, **kw2) if len(a["labels"]) else plots.show_multiple_phasePlot2([SP(s) for s in a["seqs"]], getFig=True, **kw2)
             elif entry == "pl_save_multi_phase2":
                 kw2 = dict(kw); kw2.pop("label", None)
                 ret = plots.save_multiple_phasePlot2([SP(s) for s in a["seqs"]], fname, a["labels"], saveFormat=a["fmt"], **kw2); saved = fname
@@ -112,13 +115,13 @@ def run_plot(toks, state):
                 ret = plots.save_single_uverskyPlot(a["y"], a["x"], fname, saveFormat=a["fmt"], **kw); saved = fname
             elif entry == "pl_show_multi_uversky":
                 kw2 = dict(kw); kw2.pop("label", None)
-                ret = plots.show_multiple_uverskyPlot(a["ys"], a["xs"], a["labels"], getFig=True, **kw2) if a["labels"] else plots.show_multiple_uverskyPlot(a["ys"], a["xs"], getFig=True, **kw2)
+                ret = plots.show_multiple_uverskyPlot(a["ys"], a["xs"], a["labels"], getFig=True, **kw2) if len(a["labels"]) else plots.show_multiple_uverskyPlot(a["ys"], a["xs"], getFig=True, **kw2)
             elif entry == "pl_save_multi_uversky":
                 kw2 = dict(kw); kw2.pop("label", None)
                 ret = plots.save_multiple_uverskyPlot(a["ys"], a["xs"], fname, a["labels"], saveFormat=a["fmt"], **kw2); saved = fname
             elif entry == "pl_show_multi_uversky2":
                 kw2 = dict(kw); kw2.pop("label", None)
-                ret = plots.show_multiple_uverskyPlot2([SP(s) for s in a["seqs"]], a["labels"], getFig=True, **kw2) if a["labels"] else plots.show_multiple_uverskyPlot2([SP(s) for s in a["seqs"]], getFig=True, **kw2)
+                ret = plots.show_multiple_uverskyPlot2([SP(s) for s in a["seqs"]], a["labels"], getFig=True, **kw2) if len(a["labels"]) else plots.show_multiple_uverskyPlot2([SP(s) for s in a["seqs"]], getFig=True, **kw2)
             elif entry == "pl_save_multi_uversky2":
                 kw2 = dict(kw); kw2.pop("label", None)
                 ret = plots.save_multiple_uverskyPlot2([SP(s) for s in a["seqs"]], fname, a["labels"], saveFormat=a["fmt"], **kw2); saved = fname
